@@ -397,7 +397,7 @@ namespace avel {
 
         #if defined(AVEL_AVX512VL) || defined(AVEL_AVX10_1)
         auto mask = b << N;
-        return mask4x32u{__mmask8((decay(m) & ~mask) | mask)};
+        return mask4x32u{__mmask8((decay(m) & ~(1u << N)) | mask)};
 
         #elif defined(AVEL_SSE4_1)
         auto mask = std::uint32_t(b ? -1 : 0);
